@@ -16,6 +16,13 @@ CHECKS = {
         'equal-time events never clash on a variable. <=8 events.'),
 }
 
+CHECKS['C17'] = (
+    'exhaustive enumeration of a small tree/path slice + Hypothesis-generated trees and paths vs. a lexical reference (algebraic laws, node identity)',
+    'All 25 (thorough: +729) small trees x all start nodes x all paths up to length 4 are enumerated exhaustively, larger trees/paths '
+    'are sampled; each case checks navigation against a lexical reference by node identity and the dict helpers against pure reference functions.',
+    'Trusts vv/ref/paths.py. Walks are "defined" only if every prefix exists; dict-helper paths do not descend through non-dict leaves; '
+    'update_in is only required to return the right dictionary.')
+
 NOT_YET = 'check not built yet in this session (planned, see DESIGN.md section 8)'
 
 
